@@ -2088,3 +2088,76 @@ Example C01_eq_file_two_slashes_nonvacuous :
   | _, _ => False
   end.
 Proof. exact class_file_two_nonvacuous. Qed.
+
+(* ---- scheme-less references "//T" (two '/' '\', any mix) against a FILE base ---- *)
+From RU Require Import Proofs.C01_EqFileRel2.
+
+(* the Standard's side alone: no scheme state -> file state (the base is a file URL without opaque path) -> file slash
+   state -> file host state: `sfile` of the reference, the base is not consulted any further *)
+Theorem C01_file_rel_two_slashes_spec : forall shp sb input c1 c2 T,
+  spec_clean input = c1 :: c2 :: T -> is_sl c1 = true -> is_sl c2 = true ->
+  has_opaque_path sb = false -> list_eqb (su_scheme sb) str_file = true ->
+  match sfile shp u_file0 (c1 :: c2 :: T) with
+  | Some su => spec_basic_url_parse shp input (Some sb) = BDone su
+  | None => exists uf, spec_basic_url_parse shp input (Some sb) = BFailure uf
+  end.
+Proof. exact spec_file_rel_two. Qed.
+Print Assumptions C01_file_rel_two_slashes_spec.
+
+(* the class in_class_file_rel2: `related` base whose Standard record is a file URL without opaque path; cleaned
+   reference starts with two separators and is inside file_class_ok.  agree_good + the result pair is a full_base
+   pair.  Beside C01_statement_all2 (these references are in class 1 of Known_C01). *)
+Theorem C01_eq_file_rel_two_slashes : forall dbg hp hpo hd shp shs b sb input,
+  usv_list input -> related dbg shs b sb -> in_class_file_rel2 sb input = true ->
+  host_agree_file hp hd shp shs (file_host_of (spec_clean input)) ->
+  agree_good dbg shs (parse_url dbg hp hpo hd None (Some b) input) (spec_basic_url_parse shp input (Some sb))
+  /\ (forall su u, spec_basic_url_parse shp input (Some sb) = BDone su -> parse_url dbg hp hpo hd None (Some b) input = POk u ->
+        full_base dbg shs u su).
+Proof. exact class_file_rel2. Qed.
+Check C01_eq_file_rel_two_slashes : forall dbg hp hpo hd shp shs b sb input,
+  usv_list input -> related dbg shs b sb ->
+  negb (has_opaque_path sb) && list_eqb (su_scheme sb) str_file
+  && match spec_clean input with
+     | c1 :: c2 :: T => is_sl c1 && is_sl c2 && file_class_ok (c1 :: c2 :: T)
+     | _ => false
+     end = true ->
+  host_agree_file hp hd shp shs (file_host_of (spec_clean input)) ->
+  agree_good dbg shs (parse_url dbg hp hpo hd None (Some b) input) (spec_basic_url_parse shp input (Some sb))
+  /\ (forall su u, spec_basic_url_parse shp input (Some sb) = BDone su -> parse_url dbg hp hpo hd None (Some b) input = POk u ->
+        full_base dbg shs u su).
+Print Assumptions C01_eq_file_rel_two_slashes.
+
+Theorem C01_statement_file_rel_two_slashes_model : forall dbg idna, IdnaOK idna -> forall input b sb,
+  usv_list input -> related dbg spec_host_serializer b sb -> in_class_file_rel2 sb input = true ->
+  agree_good dbg spec_host_serializer
+    (parse_url dbg (host_parse idna) host_parse_opaque host_display None (Some b) input)
+    (spec_basic_url_parse (spec_host_parser idna) input (Some sb))
+  /\ (forall su u, spec_basic_url_parse (spec_host_parser idna) input (Some sb) = BDone su ->
+        parse_url dbg (host_parse idna) host_parse_opaque host_display None (Some b) input = POk u ->
+        full_base dbg spec_host_serializer u su).
+Proof. exact class_file_rel2_model. Qed.
+Print Assumptions C01_statement_file_rel_two_slashes_model.
+
+(* non-vacuity: against the parse result of file://h/tmp/x the references //h2.x/a/../b?q and \\/y are in the class
+   (and in class 1 of Known_C01); both sides give file://h2.x/b?q and file:///y *)
+Example C01_eq_file_rel_two_slashes_nonvacuous :
+  let idna := id_idna in
+  let P base i := parse_url true (host_parse idna) host_parse_opaque host_display None base i in
+  let S sbase i := spec_basic_url_parse (spec_host_parser idna) i sbase in
+  let i1 := [47;47;104;50;46;120;47;97;47;46;46;47;98;63;113] in
+  let i2 := [92;92;47;121] in
+  match P None file_base_text, S None file_base_text with
+  | POk b, BDone sb =>
+      in_class_file_rel2 sb i1 = true /\ in_class_file_rel2 sb i2 = true
+      /\ known_c01 (Some b) i1 = 1 /\ known_c01 (Some b) i2 = 1
+      /\ match P (Some b) i1, S (Some sb) i1 with
+         | POk u, BDone su => q_href u = [102;105;108;101;58;47;47;104;50;46;120;47;98;63;113]
+                              /\ api_of_model true u = Some (spec_api_list spec_host_serializer su)
+         | _, _ => False end
+      /\ match P (Some b) i2, S (Some sb) i2 with
+         | POk u, BDone su => q_href u = [102;105;108;101;58;47;47;47;121]
+                              /\ api_of_model true u = Some (spec_api_list spec_host_serializer su)
+         | _, _ => False end
+  | _, _ => False
+  end.
+Proof. exact class_file_rel2_nonvacuous. Qed.
